@@ -398,6 +398,23 @@ fn lookup_case(cx: &mut Cx, tera: &Tera, rng: &mut Rng) {
             }
         }
     }
+    // a value that cannot be a key at all (non-integral float, array, map, none, bytes) was never inserted: it is not found
+    for needle in [V::F64(1.5), V::F64(f64::NAN), V::Arr(vec![V::I64(1)]), V::Map(vec![(K::Str("a".into()), V::I64(1))]), V::None, V::Bytes(vec![1, 2])] {
+        let mut ctx = Context::new();
+        ctx.insert_value("m", m.clone());
+        ctx.insert_value("k", needle.to_tera());
+        for tpl in ["{{ k in m }}", "{{ m is containing(pat=k) }}", "{{ m[k] is defined }}"] {
+            let r = guard(|| tera.render_str(tpl, &ctx, false));
+            cx.eval();
+            cx.count("non_key_needles", 1);
+            match r {
+                Ok(Ok(out)) if out == "true" => cx.violation(&format!("C15/lookup/non-key-found/{}", needle.kind()), format!("{tpl} with k={needle:?} (which cannot be a key) on a map of {n} entries rendered true"), json!({"k": needle.tagged(), "template": tpl})),
+                // `false`, or refusing the operand kind, are both fine
+                Ok(_) => {}
+                Err(pn) => cx.violation(&format!("C15/panic/{}", panic_site(&pn)), format!("{tpl} with k={needle:?} panicked: {pn}"), json!({"k": needle.tagged(), "template": tpl})),
+            }
+        }
+    }
     // the keys filter / pairs / length agree with the model
     let mut ctx = Context::new();
     ctx.insert_value("m", m.clone());
